@@ -23,9 +23,9 @@ at every moment and regardless of earlier queries and edits:
 * `validRooted_refOf`, `isRootedTree_iff_validRooted`, `isTree_eq_ref_rooted` — the reference decision of the check for
   rooted trees (`isRootedTree`: in-degrees read off the edge table, every ancestor line ends at the root) accepts
   exactly the valid rooted trees, so the reference tree `refOf` is defined exactly on them and, on a directed graph
-  whose root is a node, `isTree` answers what the reference answers.  (The reference decision for *unrooted* trees,
-  `isUnrootedTree`: connected and |E| = |V| - 1, is the textbook characterisation and is not connected to
-  `IsTreeFrom` by a theorem; there the check relies on `valid_answer` + `isTree_iff`.)
+  whose root is a node, `isTree` answers what the reference answers.  The reference decision for *unrooted* trees,
+  `isUnrootedTree` (connected from the root and |E| = |V| - 1), is connected to `IsTreeFrom` in
+  `Props/C15ValidU.lean` (`isUnrootedTree_iff`, `isTree_eq_ref`, `isValid_eq_ref`).
 -/
 namespace Bpp.C15
 open Bpp Bpp.Graph
